@@ -4,5 +4,5 @@ P=$1; shift
 cd /repo && git diff --quiet || { echo "/repo not clean"; exit 2; }
 git -C /repo apply "$P" || exit 2
 for c in "$@"; do (cd /verif && ./check $c quick 2>&1 | grep -E "^VIOLATION|^check " | cut -c1-220); done
-git -C /repo checkout -- . 
+git -C /repo checkout -- . && git -C /repo clean -fdq
 git -C /repo status --short | head -3
